@@ -35,6 +35,7 @@ type Collector struct {
 	notes       map[string]any
 	violations  int
 	maxHashes   int
+	counted     int64 // distinct non-trivial cases of product-space enumerations (distinct by construction)
 }
 
 // Env reads the tier/seed/shard the driver passed down.
@@ -106,6 +107,16 @@ func (c *Collector) CaseH(nontrivial bool, h uint64, classes ...string) {
 			c.classes[cl]++
 		}
 	}
+}
+
+// AddEnumerated records cases of a complete enumeration that visits every case exactly once:
+// evals cases were executed, nontrivial of them satisfy the rule; they are distinct by construction.
+func (c *Collector) AddEnumerated(evals, nontrivial int64) {
+	c.mu.Lock()
+	c.evals += evals
+	c.counted += nontrivial
+	c.classes["nontrivial"] += nontrivial
+	c.mu.Unlock()
 }
 
 func (c *Collector) Class(cl string, n int64) {
@@ -182,6 +193,7 @@ type Part struct {
 	Violations  int              `json:"violations"`
 	WallS       float64          `json:"wall_s"`
 	HashFile    string           `json:"hash_file"`
+	Counted     int64            `json:"counted_distinct"`
 }
 
 // WritePart writes <dir>/<prop>.<shard>.part.json and the hash set next to it.
@@ -213,7 +225,7 @@ func (c *Collector) WritePart() error {
 		Prop: c.Prop, Tier: c.Tier, Seed: c.Seed, Shard: c.Shard, Level: c.Level, Rule: c.Rule,
 		Assumptions: c.Assumptions, Evals: c.evals, Distinct: len(c.hashes), Classes: c.classes,
 		Excluded: c.excluded, Samples: c.samples, Exhaustive: c.exhaustive, Notes: c.notes,
-		Violations: c.violations, WallS: time.Since(c.start).Seconds(), HashFile: base + ".hashes",
+		Violations: c.violations, WallS: time.Since(c.start).Seconds(), HashFile: base + ".hashes", Counted: c.counted,
 	}
 	b, err := json.MarshalIndent(p, "", " ")
 	if err != nil {
